@@ -303,6 +303,7 @@ type Store struct {
 	AccessLifetime  time.Duration
 	RefreshLifetime time.Duration
 	Policy          ExchangePolicy
+	PresetSubject   bool // CreateAuthRequest stores the hinted user as subject before any login (as the example storage does)
 	PersistScopes   bool // SetCurrentScopes of a refresh request writes through to the stored grant (as the example storage does)
 	scopeMu         sync.Mutex
 	SessionStates   bool           // auth requests expose a session_state
@@ -468,6 +469,11 @@ func (s *Store) CreateAuthRequest(ctx context.Context, r *oidc.AuthRequest, user
 	}
 	if s.SessionStates {
 		a.SessionState = "ss-" + a.ID
+	}
+	if s.PresetSubject {
+		// as the example storage does: the user the request hints at is stored as its subject right away; the request
+		// is still not done until the login UI says so
+		a.Subject = userID
 	}
 	s.AuthReqs[a.ID] = a
 	return s.wrapAR(a), nil
